@@ -176,7 +176,14 @@ func (t1 *Tasks) Merge(t2 *Tasks, include *Include, includedTaskfileVars *Vars) 
 				task.IncludeVars = NewVars()
 			}
 			task.IncludeVars.Merge(include.Vars, nil)
+			// The variables of the included Taskfile are evaluated in the
+			// directory of the include
 			task.IncludedTaskfileVars = includedTaskfileVars.DeepCopy()
+			if task.IncludedTaskfileVars != nil && task.IncludedTaskfileVars.om != nil {
+				for pair := task.IncludedTaskfileVars.om.Front(); pair != nil; pair = pair.Next() {
+					pair.Value.Dir = include.Dir
+				}
+			}
 		}
 
 		if _, ok := t1.Get(taskName); ok {
